@@ -14,6 +14,10 @@ def rows_for(r, chrom, genes, txs, ce3, th):
         for a in range(len(ex)):
             for b in range(a, len(ex)):
                 cands.append(('circRNA', [list(e) for e in ex[a:b + 1]]))
+                if b - a >= 2:
+                    # same back-splice junction, one inner exon skipped: same id, different circRNA
+                    k = r.randrange(a + 1, b)
+                    cands.append(('circRNA', [list(e) for j, e in enumerate(ex[a:b + 1]) if a + j != k]))
         # a block that is not an exon
         if ex:
             e = ex[r.randrange(len(ex))]
@@ -47,10 +51,10 @@ def rows_for(r, chrom, genes, txs, ce3, th):
             if ce3:
                 f += [str(fpb), '1.0', str(score)]
             rows.append(dict(line='\t'.join(f), tx=t, gene=g, blocks=blocks, kind=kind, enough=enough, key=(t['id'], start, end, kind)))
-    # one record per (tx, start, end): ids must identify rows
+    # one row per (tx, blocks); rows of one transcript may share start and end (and therefore the id)
     seen, out = set(), []
     for x in rows:
-        k = x['key'][:3]
+        k = (x['key'][0], x['kind'], tuple(map(tuple, x['blocks'])))
         if k in seen:
             continue
         seen.add(k); out.append(x)
@@ -116,7 +120,8 @@ def check_c17(tier):
         emitted = {}
         for c in out.get('circ', []):
             mm = re.match(r'(CIRC|CI)-(.+)-(\d+):(\d+)$', c['id'])
-            emitted[(c['tx'], c['id'])] = (c, (int(mm.group(3)), int(mm.group(4))) if mm else None)
+            emitted[(c['tx'], c['id'], tuple(map(tuple, sorted(c['frags']))))] = (c, (int(mm.group(3)), int(mm.group(4))) if mm else None)
+        n_lines = len(out.get('circ', []))
         nrec = 0
         chrom = m['ref'].chroms['chr1']
         for y in m['rows']:
@@ -124,7 +129,12 @@ def check_c17(tier):
             # expected id is computed by the spec; find the record of this row by transcript and back-splice span
             gs = (y['blocks'][0][0] - g['start']) if g['strand'] == 1 else (g['end'] - y['blocks'][-1][1])
             ge = gs + (y['blocks'][-1][1] - y['blocks'][0][0])
-            hit = [v for (tx, cid), v in emitted.items() if tx == t['id'] and v[1] == (gs, ge)]
+            # the record of this row: same transcript, same back-splice span and - when several rows share that span - the same
+            # number of fragments (the fragments themselves are checked by TLC)
+            cands_ = [v for (tx, cid, fr), v in emitted.items() if tx == t['id'] and v[1] == (gs, ge)]
+            hit = [v for v in cands_ if len(v[0]['frags']) == len(y['blocks'])] or cands_[:0]
+            if y['kind'] == 'ciRNA':
+                hit = cands_
             c = dict(chrom=list(chrom), gene=dict(start=g['start'], end=g['end'], strand=g['strand']), tx=tx_spec(t),
                      blocks=y['blocks'], kind=y['kind'], enough=y['enough'], startRange=list(m['sr']), endRange=list(m['er']))
             if hit:
@@ -139,12 +149,12 @@ def check_c17(tier):
         log = out['log']
         mt = re.search(r'Totally records read: (\d+)', log); ms = re.search(r'Records skipped: (\d+)', log)
         mo = re.search(r'Records successfully processed: (\d+)', log)
-        if not (mt and ms) or int(mt.group(1)) != len(m['rows']) or int(ms.group(1)) != len(m['rows']) - len(emitted):
-            rep.violation(f"tally:{key}", f"parseCIRCexplorer tally does not account for the rows: rows={len(m['rows'])} emitted={len(emitted)} "
+        if not (mt and ms) or int(mt.group(1)) != len(m['rows']) or int(ms.group(1)) != len(m['rows']) - n_lines:
+            rep.violation(f"tally:{key}", f"parseCIRCexplorer tally does not account for the rows: rows={len(m['rows'])} emitted={n_lines} "
                           f"log total={mt and mt.group(1)} skipped={ms and ms.group(1)}", dict(ctx, log=log[-600:]))
         if nrec != len(emitted):
             rep.violation(f"stray:{key}", f"{len(emitted) - nrec} emitted circRNA records correspond to no input row "
-                          f"(ids {sorted(cid for _, cid in emitted)[:6]})", ctx)
+                          f"(ids {sorted(k[1] for k in emitted)[:6]})", ctx)
     verdicts = tlc_cases('CircTrace', cases, work, 'circ', rep)
     for (key, ctx, y, hit), vs in zip(info, verdicts):
         vs = [v.strip('"') for v in vs]
